@@ -26,6 +26,7 @@ func propC12() Property {
 			{ID: "C12-R4", Desc: "frame indices not data-dependent on read sizes", Min: 4, Run: c12R4},
 			{ID: "C12-R5", Desc: "a read error ends the search only when no bytes were read", Min: 2, Run: c12R5},
 			{ID: "C12-R6", Desc: "one framing parser per reader", Min: 2, Run: c12R6},
+			{ID: "C12-R11", Desc: "a frame starts at the first begin marker", Min: 1, Run: c12R11},
 			{ID: "C12-R10", Desc: "the refill keeps what a read delivered, whatever error came with it", Min: 1, Run: c12R10},
 			{ID: "C12-R9", Desc: "the backing array is assigned only by the refill function", Min: 1, Run: c12R9},
 			{ID: "C12-R8", Desc: "a search of the window that fails refills and retries", Min: 1, Run: c12R8},
